@@ -9,15 +9,18 @@
 //       op:  A <handle> <value>  |  K <handle> <value> (x<key> x<value>)*  |  C <reader>
 //   a reader is collected by at most one thread; after all threads have finished every reader collects once more.
 //
-//   observation:  F <ok> { ; <reader> <meter> x<stream> (x<key> x<value>)* <total> }  ||  S <sdk start> { ; <event> }
-//       events in the order in which the (one at a time) running threads produced them:
-//         AC <thread> <op>   AR <thread> <op>          an Add is called / has returned
-//         CC <thread> <op>                             a Collect is called
-//         CR <thread> <op> <reader> <clock before> <clock after> { / <meter> x<stream> <mono> <double> <temporality>
-//                                                                    <start> <end> { , (x<key> x<value>)* <sum> } }
-//       the final collections are the operations <reader> of thread number <number of threads>.
-#include "c06_common.h"
+//   observation:  F <ok> { ; <reader> <meter> x<stream> (x<key> x<value>)* <total> }  ||  S <sdk start> { ; <thread> <event> }
+//       the shim's log: events in the order in which the (one at a time) running threads produced them; thread -1 is the
+//       controller (the final collections).  The driver's own events:
+//         AC <op>   AR <op>                            an Add is called / has returned
+//         CC <op>                                      a Collect is called
+//         CR <op> <reader> <clock before> <clock after> { / <meter> x<stream> <mono> <double> <temporality>
+//                                                           <start> <end> { , (x<key> x<value>)* <sum> } }
+//       the shim's: xchg <obj> 1 0 = a lock acquired, st <obj> 0 = a lock released (obj: A<h> T<h> M<m> G o<N>), ld ...,
+//       yield, sleep: spinning.  The final collections are the operations <reader> of the controller.
 #include "sched/sched_driver.h"
+#define C06_OPEN_PRIVATE
+#include "c06_common.h"
 
 using verif::Sched;
 
@@ -88,17 +91,33 @@ static void run_srace(const Toks &t, Out &o)
       scripts.back().push_back(std::move(to));
     }
   }
-  // the event log: appended to by the one running thread (context switches happen inside SDK code only)
-  Out ev;
-  ev.tag("S").num(s.start_ns);
+  // the SDK's locks get names in the shim's log: A<h> attribute_hashmap_lock_ and T<h> TemporalMetricStorage::lock_ of the
+  // storage behind handle h, M<m> Meter::storage_lock_ of meter m, G MeterContext::meter_lock_; every other lock (the Sum
+  // aggregations' own) keeps its anonymous name o<N>
+  for (size_t h = 0; h < s.handles.size(); h++)
+  {
+    auto *meter = static_cast<msdk::Meter *>(s.meters[size_t(s.handles[h]->meter)].get());
+    auto it     = meter->storage_registry_.find(s.handles[h]->name);
+    if (it == meter->storage_registry_.end()) { o.tag("BADCASE"); return; }
+    auto *st = static_cast<msdk::SyncMetricStorage *>(it->second.get());
+    S.name(&st->attribute_hashmap_lock_.flag_, "A" + std::to_string(h));
+    S.name(&st->temporal_metric_storage_.lock_.flag_, "T" + std::to_string(h));
+    S.name(&meter->storage_lock_.flag_, "M" + std::to_string(s.handles[h]->meter));
+  }
+  S.name(&s.ctx->meter_lock_.flag_, "G");
+  // the trace is the shim's log from here on: every atomic operation of the (one at a time) running threads, and the
+  // driver's own events AC/AR/CC/CR logged by the thread that performs them
+  size_t log_start = S.events().size();
   std::vector<std::vector<std::vector<Stream>>> seen(s.readers.size());
-  auto do_collect = [&](size_t thread, size_t op, size_t r) {
-    ev.tag(";").tag("CC").num((long long)thread).num((long long)op);
+  auto do_collect = [&](size_t op, size_t r) {
+    S.log("CC " + std::to_string(op));
     long long before = S.peek_ns();
     auto streams     = collect(s, r);
     long long after  = S.peek_ns();
-    ev.tag(";").tag("CR").num((long long)thread).num((long long)op).num((long long)r).num(before).num(after);
+    Out ev;
+    ev.tag("CR").num((long long)op).num((long long)r).num(before).num(after);
     print_streams(ev, streams);
+    S.log(ev.line);
     seen[r].push_back(std::move(streams));
   };
   for (size_t ti = 0; ti < scripts.size(); ti++)
@@ -106,18 +125,18 @@ static void run_srace(const Toks &t, Out &o)
       for (size_t k = 0; k < scripts[ti].size(); k++)
       {
         const ThreadOp &op = scripts[ti][k];
-        if (op.is_collect) do_collect(ti, k, op.reader);
+        if (op.is_collect) do_collect(k, op.reader);
         else
         {
-          ev.tag(";").tag("AC").num((long long)ti).num((long long)k);
+          S.log("AC " + std::to_string(k));
           do_add(s, op.add);
-          ev.tag(";").tag("AR").num((long long)ti).num((long long)k);
+          S.log("AR " + std::to_string(k));
         }
       }
     });
   S.set_step_limit(60000);
   if (!scripts.empty()) S.run_all();
-  for (size_t r = 0; r < s.readers.size(); r++) do_collect(scripts.size(), r, r);
+  for (size_t r = 0; r < s.readers.size(); r++) do_collect(r, r);
 
   // order-independent summary (as for RACE): per reader, stream and attribute set the sum of the delta points / the last
   // cumulative point; F: temporality and start/end relations held throughout
@@ -161,7 +180,12 @@ static void run_srace(const Toks &t, Out &o)
     o.num(kv.second);
   }
   o.tag("||");
-  o.add(ev.line);
+  o.tag("S").num(s.start_ns);
+  for (size_t i = log_start; i < S.events().size(); i++)
+  {
+    o.tag(";");
+    o.add(S.events()[i]);
+  }
 }
 
 int main(int argc, char **argv)
